@@ -174,20 +174,27 @@ namespace rkcommon {
 
     // Inlined operators //////////////////////////////////////////////////////
 
-    template <typename T>
-    inline bool operator<(const IntrusivePtr<T> &a, const IntrusivePtr<T> &b)
+    // Handles of different (related) static types, e.g. IntrusivePtr<Derived>
+    // and IntrusivePtr<Base>, are compared as pointers after the usual
+    // derived-to-base conversion, i.e. they are equal exactly when they refer
+    // to the same object. (With a single template parameter such comparisons
+    // did not match these operators and fell back to 'operator bool()' on both
+    // sides, so any two non-null handles compared equal.)
+
+    template <typename T, typename U>
+    inline bool operator<(const IntrusivePtr<T> &a, const IntrusivePtr<U> &b)
     {
       return a.ptr < b.ptr;
     }
 
-    template <typename T>
-    bool operator==(const IntrusivePtr<T> &a, const IntrusivePtr<T> &b)
+    template <typename T, typename U>
+    bool operator==(const IntrusivePtr<T> &a, const IntrusivePtr<U> &b)
     {
       return a.ptr == b.ptr;
     }
 
-    template <typename T>
-    bool operator!=(const IntrusivePtr<T> &a, const IntrusivePtr<T> &b)
+    template <typename T, typename U>
+    bool operator!=(const IntrusivePtr<T> &a, const IntrusivePtr<U> &b)
     {
       return a.ptr != b.ptr;
     }
